@@ -87,6 +87,8 @@ def wcmatch_vs_spec(item):
     cyclic = trees.is_cyclic(spec)
     with trees.Tree(spec) as t:
         for incs, excs, dincs, dexcs, flags in cases:
+            if globrun.too_many_timeouts():
+                break          # this worker has hit the alarm repeatedly: the violations are reported, the rest is not run
             if cyclic and flags & WM.SL:
                 continue
             minus = bool(flags & WM.M)
@@ -180,6 +182,8 @@ def kill_points(item):
     out = []
     with trees.Tree(spec) as t:
         for pattern, flags, skip_value, error_value in cases:
+            if globrun.too_many_timeouts():
+                break          # this worker has hit the alarm repeatedly: the violations are reported, the rest is not run
             base = dict(tree=tname, pattern=pattern, flags=flags, fl=f'{flags:#x}', skip_value=skip_value)
             try:
                 bad = []
@@ -268,6 +272,8 @@ def pathlib_views(item):
     with trees.Tree(spec) as t:
         ents = t.entries()
         for txt, flags in cases:
+            if globrun.too_many_timeouts():
+                break          # this worker has hit the alarm repeatedly: the violations are reported, the rest is not run
             follow = bool(flags & PL.L)
             if cyclic and (follow or (flags & PL.GL and '***' in txt)):
                 continue
